@@ -811,5 +811,10 @@ where
 
 #[cfg(scylla_verif)]
 #[path = "worker_verif.rs"]
-#[allow(missing_docs, unreachable_pub, unnameable_types, clippy::result_unit_err)]
+#[allow(
+    missing_docs,
+    unreachable_pub,
+    unnameable_types,
+    clippy::result_unit_err
+)]
 pub(crate) mod verif;
